@@ -12,7 +12,8 @@
    full channel are served in FIFO order. *)
 From Kit Require Import C13.Model_FifoMutex C13.Model_FifoMap C13.Model_CMap C13.Model_Ctx
   C13.Model_Outer C13.Spec C13.Check
-  C13.Proofs_Fifo C13.Proofs_Ctx C13.Proofs_Refuted C13.Proofs_Outer.
+  C13.Proofs_Fifo C13.Proofs_FifoMap C13.Proofs_Ctx C13.Proofs_CMap C13.Proofs_Refuted C13.Proofs_Outer
+  C13.Proofs_Oracle.
 
 (* ---------------------------------- fifo.Mutex ---------------------------------------- *)
 
@@ -43,6 +44,44 @@ Theorem C13_fifo_unlock_grants_head : forall es s t t' q, frun finit es = Some s
   exists s', fstep s (FUnlock t) = Some s' /\ fpcs s' t' = FHold /\ sendq (fch s') = q.
 Proof. exact fifo_unlock_grants_head. Qed.
 Print Assumptions C13_fifo_unlock_grants_head.
+
+(* ---------------------------------- fifo.Map ------------------------------------------ *)
+
+(* Per key, at most one thread is between the return of Lock(k) and its call of Unlock(k) - also
+   across deletion and re-creation of the key's entry (a thread that is still releasing the old
+   mutex while a newcomer creates a fresh entry has left its critical section). *)
+Theorem C13_fifomap_excl : forall es s k, mrun minit es = Some s ->
+  excl (fun t => exists o, mpcs s t = MHold k o) (fun _ => False).
+Proof. exact fifomap_excl_all. Qed.
+Print Assumptions C13_fifomap_excl.
+
+(* Per key, grants happen in the order of arrival at the key mutex. *)
+Theorem C13_fifomap_order : forall es s k, mrun minit es = Some s -> fifo (karr s k) (kgrants s k).
+Proof. exact fifomap_order_all. Qed.
+Print Assumptions C13_fifomap_order.
+
+(* ilen of an existing entry = the number of threads between their ilen++ and their ilen--
+   (holders + waiters + those about to wait), it is at least 1 (so ilen-- never underflows), and
+   a key without entry has no such thread. *)
+Theorem C13_fifomap_count : forall es s k, mrun minit es = Some s ->
+  match items s k with
+  | Some it => (it_len it = Z.of_nat (length (it_users it)))%Z /\ (it_len it >= 1)%Z /\
+               NoDup (it_users it) /\ (forall t, In t (it_users it) <-> Model_FifoMap.between s t k)
+  | None => forall t, ~ Model_FifoMap.between s t k
+  end.
+Proof. exact fifomap_count_all. Qed.
+Print Assumptions C13_fifomap_count.
+
+(* No leak: the entry of key k is present exactly while some thread holds or waits for k. *)
+Theorem C13_fifomap_no_leak : forall es s k, mrun minit es = Some s ->
+  no_leak (present s k) (fun t => Model_FifoMap.between s t k).
+Proof. exact fifomap_no_leak_all. Qed.
+Print Assumptions C13_fifomap_no_leak.
+
+(* Unlock never dereferences a missing entry (no nil-pointer panic) under correct pairing. *)
+Theorem C13_fifomap_no_panic : forall es s, mrun minit es = Some s -> mpanic s = false.
+Proof. exact fifomap_no_panic_all. Qed.
+Print Assumptions C13_fifomap_no_panic.
 
 (* ---------------------------------- lock.Context -------------------------------------- *)
 
@@ -82,6 +121,19 @@ Proof. exact ctx_free_token_take. Qed.
 Print Assumptions C13_ctx_free_token_take.
 
 (* ---------------------------------- cmap.Mutex ---------------------------------------- *)
+
+(* PARTIAL (the full statement is refuted below).  For every schedule in which no Delete /
+   DeleteUnlock / DeleteRUnlock / Clear removes the entry of a key that ANOTHER session holds or
+   waits for ([safe_run]: the side condition is checked in the state in which the event fires):
+   per key at most one writer is inside, never a writer together with a reader, and no RWMutex is
+   ever unlocked while not locked (the Go fatal error).  Any number of threads and keys; which of
+   several blocked writers proceeds is left open; context switches between the look-up, the
+   creation and the mutex operation are separate events. *)
+Theorem C13_cmap_mutex_excl_partial : forall es s k, safe_run cinit es s ->
+  fatal s = false /\
+  excl (fun t => exists o, cpcs s t = CInW k o) (fun t => exists o, cpcs s t = CInR k o).
+Proof. exact cmap_excl_partial. Qed.
+Print Assumptions C13_cmap_mutex_excl_partial.
 
 (* REFUTED (known finding): with a DeleteUnlock while another thread waits, two threads are in
    the exclusive critical section of ONE key at once. *)
@@ -137,3 +189,73 @@ Theorem C13_outer_cancel_reasons : forall s e s' n,
                (closed s = true \/ (a + grace s <= now s)%Z)).
 Proof. exact outer_done_reasons. Qed.
 Print Assumptions C13_outer_cancel_reasons.
+
+(* WRITER AFTER READERS + NO READER DURING WRITER.  In every reachable state (before or after
+   shutdown) in which a writer holds the grant it received through Run - from the reply until
+   its unlock - EVERY reader record that exists is done (released, or cancelled by its grace
+   goroutine): the writer was granted only after all earlier readers, and no reader has been
+   admitted since. *)
+Theorem C13_outer_writer_after_readers : forall g es s t n r, orun (oinit g) es = Some s ->
+  opcs s t = OWHoldSlot -> nth_error (recs s) n = Some r -> r_done r = true.
+Proof. exact outer_writer_excludes_readers. Qed.
+Print Assumptions C13_outer_writer_after_readers.
+
+(* ... in the property's words: no thread is a reader that has not been told to stop while a
+   writer holds that grant. *)
+Theorem C13_outer_no_reader_during_writer : forall g es s t t', orun (oinit g) es = Some s ->
+  opcs s t = OWHoldSlot -> ~ rholds s t'.
+Proof. exact outer_no_live_reader_with_slot_writer. Qed.
+Print Assumptions C13_outer_no_reader_during_writer.
+
+(* Writers served by Run exclude each other (the refutation above needs the shutdown lock). *)
+Theorem C13_outer_slot_excl : forall g es s t1 t2, orun (oinit g) es = Some s ->
+  opcs s t1 = OWHoldSlot -> opcs s t2 = OWHoldSlot -> t1 = t2.
+Proof. exact outer_slot_excl. Qed.
+Print Assumptions C13_outer_slot_excl.
+
+(* The WaitGroup equals the number of reader records that are not done (a writer is replied to
+   only when it is zero). *)
+Theorem C13_outer_wg_counts : forall g es s, orun (oinit g) es = Some s -> wg s = live (recs s).
+Proof. exact outer_wg_counts. Qed.
+Print Assumptions C13_outer_wg_counts.
+
+(* An RLock that reports an error (context done, lock closed) changes nothing but the caller's
+   own program counter and result: no record, no WaitGroup count, no token. (Any state.) *)
+Theorem C13_outer_error_holds_nothing : forall s e s' t,
+  e = ORCtx t \/ e = ORClosed t \/ (e = ORGot t /\ resps s t = Some PErr) ->
+  ostep s e = Some s' ->
+  recs s' = recs s /\ wg s' = wg s /\ oslot s' = oslot s /\ owner s' = owner s /\ rcs s' = rcs s /\
+  opcs s' t = OIdle /\ (ores s' t = RCtxErr \/ ores s' t = RClosed) /\
+  (forall x, x <> t -> opcs s' x = opcs s x).
+Proof. exact outer_error_holds_nothing_step. Qed.
+Print Assumptions C13_outer_error_holds_nothing.
+
+(* GRACE.  While the lock is running (not shut down), the grace goroutine of a reader that has
+   not released runs - and cancels the reader's context - only when at least the grace period
+   has elapsed since it was spawned; it is spawned only by a writer's handleHold (after the
+   writer's arrival) or by Run's deferred function. *)
+Theorem C13_outer_grace : forall s s' n, ostep s (OGrace n) = Some s' ->
+  done_of s n = false -> closed s = false ->
+  exists r a, nth_error (recs s) n = Some r /\ r_at r = Some a /\ (a + grace s <= now s)%Z.
+Proof. exact outer_grace. Qed.
+Print Assumptions C13_outer_grace.
+
+(* ---------------------------------- oracles ------------------------------------------- *)
+
+(* The boolean oracles evaluated on the implementation's observations decide the Spec
+   predicates: FIFO (grant log is a prefix of the arrival log), exclusion per key over the
+   positions of the status list, entry count = keys in use. *)
+Theorem C13_oracle_fifo_sound : forall arrivals grants,
+  fifo_obs arrivals grants = true <-> fifo arrivals grants.
+Proof. exact fifo_obs_sound. Qed.
+Print Assumptions C13_oracle_fifo_sound.
+
+Theorem C13_oracle_excl_sound : forall keys st,
+  excl_obs keys st = true <-> forall k, In k keys -> excl_at st k.
+Proof. exact excl_obs_sound. Qed.
+Print Assumptions C13_oracle_excl_sound.
+
+Theorem C13_oracle_no_leak_sound : forall keys st entries,
+  no_leak_obs keys st entries = true <-> entries = used_keys keys st.
+Proof. exact no_leak_obs_sound. Qed.
+Print Assumptions C13_oracle_no_leak_sound.
